@@ -550,6 +550,35 @@ impl Heap {
     }
 }
 
+/// Verification hooks (see vm/verif.rs): read-only views, and the free-list
+/// take/restore pair used to bypass the utilisation test of `Vm::run_gc`.
+#[cfg(marwood_verif)]
+impl Heap {
+    pub(crate) fn verif_cells(&self) -> &[VCell] {
+        &self.heap
+    }
+
+    pub(crate) fn verif_gc_state(&self, index: usize) -> Option<u8> {
+        self.heap_map.get(index).map(|it| it.bits())
+    }
+
+    pub(crate) fn verif_free_list(&self) -> &[usize] {
+        &self.free_list
+    }
+
+    pub(crate) fn verif_symbol_table(&self) -> &HashMap<String, usize> {
+        &self.symbol_table
+    }
+
+    pub(crate) fn verif_take_free_list(&mut self) -> Vec<usize> {
+        std::mem::take(&mut self.free_list)
+    }
+
+    pub(crate) fn verif_restore_free_list(&mut self, free_list: Vec<usize>) {
+        self.free_list = free_list;
+    }
+}
+
 #[cfg(test)]
 mod tests {
     use super::*;
